@@ -266,7 +266,10 @@ def check_point(pt, stmts, acc):
             # a TripleStream fed quads: only the documented Dataset-with-TripleStream case is meaningful
             return None
     case = {"point": pt, "statements": stmts}
-    r = execute(pt, stmts)
+    try:
+        r = execute(pt, stmts)
+    except pyj.FramesChangedAfterYield as exc:
+        return Violation("C06:frames-changed-after-yield", f"{pt['entry']}: {exc}", case)
     if r[0] == "raised":
         if acc is not None:
             acc.case(case, False, ["refused", "refused_" + type(r[1]).__name__]
